@@ -126,7 +126,8 @@ def world_pair(script, rng):
     for n in names:
         for t in sorted(set(rng.sample(semgen.QTYPES, 4)) | {1, 2}):
             queries.append(semlib.query([[ord(c) for c in l] for l in n if l != ""], t, clients[Lc], maxans=MAXANS, exact=True))
-    if Lc and rng.random() < 0.5:
+    apex = [json.dumps(l["dom"]) for l in base if l["t"] in ".Z"]
+    if Lc and len(apex) == len(set(apex)) and rng.random() < 0.5:
         base2, after = erased(base), []          # tag erasure instead of a foreign edit
     else:
         base2 = base
@@ -151,7 +152,7 @@ def run():
     rng.shuffle(files)
     script = semlib.Script()
     npairs = 0
-    for f in files[:(900 if thorough else 60)]:
+    for f in files[:(400 if thorough else 60)]:          # thorough: about 600 000 judged lines (30-40 min)
         for loc in (0, 1, 2):
             base = [l for l in f if l["loc"] in (0, loc)]
             fc = foreign_cands(files, loc)
@@ -167,12 +168,15 @@ def run():
             if rng.random() < 0.7:
                 rg_pair(script, base, before, after, loc, rng)
                 npairs += 1
-            if loc and any(l["loc"] == loc for l in base) and rng.random() < 0.6:
+            # (a zone with two SOA records - a tagged and an untagged apex line - is ambiguous about which SOA goes into
+            # negative answers: erasing the tags changes the storage order, so such files are left out of this relation)
+            apex = [json.dumps(l["dom"]) for l in base if l["t"] in ".Z"]
+            if loc and any(l["loc"] == loc for l in base) and len(apex) == len(set(apex)) and rng.random() < 0.6:
                 # tag erasure: the client's own view written as an untagged file must answer the same
                 semfam.rg_script(script, base + before, rng, maxans=MAXANS, exact=True, tag="c04e", locs=(loc,))
                 semfam.rg_script(script, erased(base), rng, maxans=MAXANS, exact=True, tag="c04e", keep=True, cmp=True, locs=(loc,))
                 npairs += 1
-    for _ in range(250 if thorough else 14):
+    for _ in range(120 if thorough else 14):
         if world_pair(script, rng):
             npairs += 1
     trace, rows, res, info = semcheck.validate(script, "c04", backends="cdb,v1,v2")
